@@ -92,6 +92,11 @@ macro_rules! hitem {
             #[cfg_attr(kani, kani::stub(pest_typed::tracker::Tracker::clear, crate::stubs::t1_clear))]
         ] $name $body }
     };
+    ([E $($rest:ident)*] [$($attrs:tt)*] $name:ident $body:block) => {
+        $crate::hitem!{ [$($rest)*] [$($attrs)*
+            #[cfg_attr(kani, kani::stub(pest_typed::tracker::Tracker::collect, crate::stubs::t_collect))]
+        ] $name $body }
+    };
     ([F $($rest:ident)*] [$($attrs:tt)*] $name:ident $body:block) => {
         $crate::hitem!{ [$($rest)*] [$($attrs)*
             #[cfg_attr(kani, kani::stub(alloc::fmt::format, crate::stubs::f_format))]
